@@ -27,12 +27,18 @@ func init() {
 				"'above the limit' exactly when that stamp is set and not older than the interval.",
 			NotCovered: "that the ring buffer of golibs behaves as a ring (trusted), so that R7's structure (limit+1 slots, push before read, comparison with " +
 				"the interval) yields an exact sliding window; the expiry timing of the backoff tables (temporal facts outside static reach); the allowlist's own matching.",
-			Rules: map[string]string{"C09-R1": "middleware gate tables", "C09-R2": "limiter check order, family selection, keying", "C09-R3": "profile limiter table",
+			Rules: map[string]string{"C09-R11": "list setters (DynamicAllowlist.Update, …) replace the list: no append onto the previous contents of the same field", "C09-R1": "middleware gate tables", "C09-R2": "limiter check order, family selection, keying", "C09-R3": "profile limiter table",
 				"C09-R4": "window counter under its lock", "C09-R9": "builder wiring: the configured allowlist is the persistent part of the dynamic allowlist", "C09-R8": "the dynamic allowlist is replaced only after a successful load (a failed refresh keeps the previous allowlist)", "C09-R7": "window counter structure: the ring holds limit+1 time stamps; every event (also one that is dropped) is pushed before the oldest one is read; the event is above the limit iff the oldest kept stamp is set and within the interval", "C09-R5": "every estimated response is counted", "C09-R6": "configuration-to-limiter field map (each family's count, interval and key length under its own name)"},
 		}})
 }
 
 func runC09(c *an.Ctx) {
+	// ---- R11: an allowlist refresh replaces the dynamic part (a subnet dropped by the source stops being exempt)
+	if n := sharedReplaceNotAccumulate(c, "C09-R11", "dnsserver/ratelimit.", "consul.", "backendpb.", "agd."); n >= 1 {
+		c.Ok("C09-R11", "list setters of the rate-limit code replace, never accumulate", token.NoPos, "%d slice-field stores in Update/Set/Reset methods examined", n)
+	} else {
+		c.Und("C09-R11", "list setters of the rate-limit code replace, never accumulate", token.NoPos, "no setter found (anchor: DynamicAllowlist.Update)")
+	}
 	dnssvcWiring(c, "C09-R10", func(dst, src string) bool {
 		n := normName(dst) + " " + normName(src)
 		return strings.Contains(n, "limiter") || strings.Contains(n, "ratelimit")
